@@ -40,6 +40,8 @@ def main():
             return 0
         print("case :", case)
         print("impl :", common.run_impl([case])[0])
+        if case.split()[0] in "ECSL":
+            print("plain:", common.run_impl_plain([case])[0], "  (the package built without the verif tag)")
         print("model:", common.run_model([case], "model")[0])
         print("spec :", common.run_model([case], "spec")[0])
         return 0
@@ -60,6 +62,8 @@ def main():
     if st["impl_ok"] and st["model_ok"]:
         try:
             res = props.CHECKS[pid](tier, seed, st)
+            import random as _random
+            props.plain_build_stream(res, _random.Random(seed + 7), tier)
             changed = common.changed_functions()
             if changed and tier == "quick":
                 # the hand-modelled source differs from the pinned fingerprints: more rounds of the same streams
